@@ -18,7 +18,7 @@ type countingCtx struct {
 	n     int
 }
 
-func (c *countingCtx) GetMatch(i int) string { c.n++; return c.inner.GetMatch(i) }
+func (c *countingCtx) GetMatch(i int) string  { c.n++; return c.inner.GetMatch(i) }
 func (c *countingCtx) GetKey(k string) string { c.n++; return c.inner.GetKey(k) }
 
 func evalBoth(tmpl, elems, keys string) (string, string) {
@@ -76,6 +76,8 @@ func c10Run(f []string) string {
 			return "DIFF opt=" + outs[0] + " noopt=" + outs[1]
 		}
 		return outs[0]
+	case "ftree":
+		return c10FtreeRun(f)
 	case "par":
 		// par <w> <template> <elems> <keys>: one compiled expression evaluated from w goroutines
 		var w int
@@ -179,6 +181,9 @@ func c10Run(f []string) string {
 
 type c10g struct{ r *Rand }
 
+// c10CheapInf: the generator of C10 itself also emits `{@for x 1 y}` (MAX_ITERATIONS rounds without arithmetic)
+var c10CheapInf = false
+
 var c10Consts = []string{"0", "1", "-1", "5", "10", "3.5", "abc", "\"\"", "\"a b\"", "x", "007", "9223372036854775807", "\" \"", "é"}
 var c10Dyn = []string{"{0}", "{1}", "{2}", "{3}", "{src}", "{line}", "{nokey}", "{@}"}
 
@@ -234,7 +239,12 @@ func (g *c10g) expr(depth int, dynOK bool) string {
 			a = Pick(g.r, []string{"0", "1", "3", "7", "-2", "{1}"})
 		case "@for":
 			if i == 1 {
-				a = Pick(g.r, []string{"\"{lt {1} 4}\"", "\"{lt {len {0}} 3}\"", "\"\""})
+				// bounded by the round index: an unbounded condition runs MAX_ITERATIONS rounds of float parsing in
+				// the software-float model (30 s per case); the INF path is kept with a cheap constant condition
+				a = Pick(g.r, []string{"\"{lt {1} 4}\"", "\"{and {lt {1} 6} {lt {len {0}} 3}}\"", "\"\""})
+				if c10CheapInf && g.r.Chance(1, 40) {
+					a = "1"
+				}
 			}
 		case "!":
 			if i == 0 {
@@ -272,6 +282,7 @@ func (g *c10g) ctx() ([]string, []string) {
 
 func c10Gen(r *Rand, tier string) []string {
 	g := &c10g{r}
+	c10CheapInf = true
 	n := 1500
 	if tier == "thorough" {
 		n = 60000
@@ -420,6 +431,8 @@ func c10Gen(r *Rand, tier string) []string {
 		el := []string{fmt.Sprint(r.Intn(90) + 1), fmt.Sprint(r.Intn(90) + 1)}
 		out = append(out, fmt.Sprintf("parf %d %s %s %s %s", Pick(r, []int{4, 8, 16}), HexS(file), HexS(call), HexListS(el), HexListS([]string{"src", "f.log"})))
 	}
+	// nested funcs-file functions, forward references / recursion, definitions files given as trees
+	out = append(out, c10NestCases(r, tier)...)
 	return out
 }
 
